@@ -5,15 +5,18 @@ Require Import Bytes Restartable ParserModel ParserLemmas HandlerModel HandlerLe
 Import ListNotations.
 
 (* One request delivered in reads [segs] (every proper prefix at a read boundary being an
-   incomplete message).  Within the limit: no read is refused and the last read produces the
-   outcome of the whole request.  Over the limit: the reads that fit are waited for, the first
-   read that crosses the limit is answered 413, and the handler is never reached before. *)
+   incomplete message; the last read may hold more than the end of the request).  Within the
+   limit - the bytes are not more than the limit, or the request is complete (or refused for
+   another reason) within its first [maxsz] bytes, what follows it in the last read not counting
+   for its size: no read is refused and the last read produces the outcome of the whole request.
+   Over the limit: the reads that fit are waited for, the first read that crosses the limit is
+   answered 413, and the handler is never reached before. *)
 Theorem C14_size_exact :
   forall typed_other set_cookie maxsz segs acc stc,
     whole typed_other set_cookie KRequest acc = (PAgain, stc) -> length acc <= maxsz -> segs <> [] ->
     (forall k, k < length segs ->
        fst (whole typed_other set_cookie KRequest (acc ++ concat (firstn k segs))) = PAgain) ->
-    if (length (acc ++ concat segs) <=? maxsz)%nat
+    if within typed_other set_cookie maxsz (acc ++ concat segs)
     then fst (connection typed_other set_cookie maxsz stc segs)
          = repeat AWait (length segs - 1)
            ++ [act_of (whole typed_other set_cookie KRequest (acc ++ concat segs))]
@@ -51,9 +54,28 @@ Print Assumptions C14_head_timed_out_after_header_timeout.
    follow (the rest of the refused request, a request hidden in its body, further requests) the handler is not called and
    no further response is sent (fix of the third seeding round; before it the rest of a refused request was parsed as new
    requests: "[413, 200]" with a handler call for a request the client never sent). *)
-Theorem C14_nothing_after_refusal : forall typed_other set_cookie reads maxsz st pre c post,
-  serve typed_other set_cookie maxsz st reads = pre ++ ARespond c :: post ->
+Theorem C14_nothing_after_refusal : forall typed_other set_cookie reads maxsz st all pre c post,
+  serve typed_other set_cookie maxsz st reads = Some all -> all = pre ++ ARespond c :: post ->
   forallb (fun a => negb (is_respond a)) pre = true ->
   forallb is_wait post = true.
 Proof. exact nothing_after_refusal. Qed.
 Print Assumptions C14_nothing_after_refusal.
+
+(* ... and [serve] always is [Some]: the loop of Handler::onInput over the requests of one read ends (every pass that
+   completes a request consumes at least one byte), from every parser state a connection can be in *)
+Theorem C14_serving_a_read_ends : forall typed_other set_cookie reads maxsz st,
+  good st -> exists all, serve typed_other set_cookie maxsz st reads = Some all.
+Proof. exact serve_total. Qed.
+Print Assumptions C14_serving_a_read_ends.
+
+(* a request within the limit is never refused for its size, whatever follows it in the same read (a client that
+   pipelines): the handler gets it, and what follows is served from a fresh parser *)
+Theorem C14_within_limit_served_whatever_follows : forall typed_other set_cookie maxsz r m r2 fuel,
+  exact_request typed_other set_cookie r m -> length r <= maxsz -> r2 <> [] ->
+  on_read typed_other set_cookie (S fuel) maxsz pstate_init (r ++ r2) =
+  match on_read typed_other set_cookie fuel maxsz pstate_init r2 with
+  | Some (acts, st) => Some (AHandler m :: acts, st)
+  | None => None
+  end.
+Proof. exact pipelined_as_fresh. Qed.
+Print Assumptions C14_within_limit_served_whatever_follows.
